@@ -1,6 +1,12 @@
 mod cache_control;
 mod export_sdl;
 mod stringify_exec_doc;
+#[cfg(feature = "verif-hooks")]
+#[doc(hidden)]
+#[allow(missing_docs)]
+pub mod verif_hooks {
+    pub use super::{export_sdl::verif_hooks::*, stringify_exec_doc::verif_hooks::*};
+}
 
 use std::{
     collections::{BTreeMap, BTreeSet, HashMap, HashSet},
